@@ -33,7 +33,7 @@ def showItem (t : Text) (it : Tok × Span × Span) : String :=
 def iterModel (cfg : ScanCfg) (t : Text) (m : Metrics) (filter : Option Nat) :
     List (Tok × Span × Span) × Pos :=
   let E := lexEnv cfg t
-  let lx0 : Lexer Nat Tok := Lexer.new 0 m (bytes t)
+  let lx0 : Lexer Nat Tok := Lexer.new 1 m (bytes t)
   let lx := match filter with
     | none => lx0
     | some f => lx0.withFilter E (some f)
@@ -41,7 +41,7 @@ def iterModel (cfg : ScanCfg) (t : Text) (m : Metrics) (filter : Option Nat) :
   (r.1, r.2.cursor)
 
 def iterSpec (cfg : ScanCfg) (t : Text) (m : Metrics) (filter : Option Nat) : List (Tok × Span × Span) :=
-  let raw := Spec.rawFrom (scanText cfg t) m (bytes t + 1) 0 Pos.zero
+  let raw := Spec.rawFrom (scanText cfg t) m (bytes t + 1) 1 Pos.zero
   let keep := fun (tok : Tok) => match filter with
     | none => true
     | some f => passesMask f tok
@@ -68,7 +68,7 @@ def runIter (fields : List String) : String × String :=
     let spec := iterSpec cfg t m f
     let so := showItems t spec
     let implItems := (impl.splitOn "|").headD ""
-    let raw := Spec.rawFrom (scanText cfg t) m (bytes t + 1) 0 Pos.zero
+    let raw := Spec.rawFrom (scanText cfg t) m (bytes t + 1) 1 Pos.zero
     let reasons :=
       (if implItems == so then [] else ["C04: delivered stream differs, expected " ++ so]) ++
       (if Spec.tiles Pos.zero raw then [] else ["C04: raw stream does not tile"]) ++
@@ -129,7 +129,7 @@ def project (ops : List Op) : List Op := LexOps.project ops
 /-- `next_if_eq(t)` is `next_if(|x| x == t)` in the model (token equality is by kind). -/
 def histModel (cfg : ScanCfg) (t : Text) (m : Metrics) (ops : List Op) : String :=
   let E := lexEnv cfg t
-  " ".intercalate ((LexOps.exec E [Lexer.new 0 m (bytes t)] ops).map fun (o, lx) =>
+  " ".intercalate ((LexOps.exec E [Lexer.new 1 m (bytes t)] ops).map fun (o, lx) =>
     showOut o ++ "@" ++ stateObs lx)
 
 /-! Oracle: evaluated on the implementation's observation strings. -/
@@ -230,7 +230,7 @@ def runOps (fields : List String) : String × String :=
         [(if f19 then "C05: F19-sublex-mark-then-filter-change " else "C05: ") ++
           "delivered tokens differ from the advance-only history: " ++ " ".intercalate df ++ " vs " ++ " ".intercalate dp]
       -- sequential scanner state: a delivered token's tag is the index of its raw token
-      let raw := Spec.rawFrom (scanText cfg t) m (bytes t + 1) 0 Pos.zero
+      let raw := Spec.rawFrom (scanText cfg t) m (bytes t + 1) 1 Pos.zero
       let tagOK := if !cfg.stateful then true else df.all fun d =>
         let out := (d.splitOn "@").headD ""
         if out == "none" || out == "0" || out == "1" then true else
